@@ -158,6 +158,12 @@ func (s *Server) handleConn(c *Conn) error {
 	c.greet()
 
 	for {
+		if c.isClosed() {
+			// QUIT, too many errors or a panic ended the connection; do not
+			// run commands that are still buffered.
+			return nil
+		}
+
 		line, err := c.readLine()
 		if err == nil {
 			cmd, arg, err := parseCmd(line)
